@@ -273,4 +273,109 @@ example :
     (srcDerive H0 (run H0 init demo) 5).length = 3 := by
   decide +kernel
 
+/-! ## Source tie of LOADS and STORES (session 5): `Builder.store_ref` and `Slice.load_ref` regenerated as heap transformers
+
+The alias effect of the two reference-moving methods is now read off the source: `store_ref` appends the VERY object it is given to
+the builder's OWN list container, in place; `load_ref` hands out the VERY Cell object held by the list and changes only the slice's
+`ref_offset`.  Each is the model transition (`storeRef` / `loadRef`), so the invariant and the immutability of cells hold of histories
+that contain the regenerated steps. -/
+
+open TonVerif.Generated.HeapSrc TonVerif.Proofs.SrcHeap in
+/-- the regenerated mutating methods applicable to `self` (with argument `arg` where the method takes one), as transitions, each with the
+model operation it is proved equal to -/
+def srcMut (H : Bytes → Bytes) (σ : State) (self arg : Nat) : List (Op × (State × Out)) :=
+  (if σ.has self .builder && σ.has arg .cell then [(Op.storeRef self arg, Py.Heap.resultUnit σ (Builder_store_ref H σ self arg))] else []) ++
+  (if σ.has self .slice then [(Op.loadRef self, Py.Heap.result σ (Slice_load_ref H σ self))] else [])
+
+open TonVerif.Generated.HeapSrc TonVerif.Proofs.SrcHeap in
+/-- REGENERATED `Builder.store_ref(ref)` = MODEL `storeRef`, on every well-formed heap, for every live builder and live cell: it raises
+exactly when the builder's list already holds 4 entries and changes nothing then; otherwise the ONLY change of the heap is that the
+list container the builder points to holds one more entry, the object `ref` itself (no copy, no new container, no other object's
+record touched). -/
+theorem c08_src_store_step (H : Bytes → Bytes) (σ : State) (wf : WF σ) (self ref : Nat)
+    (hb : σ.has self .builder = true) (hc : σ.has ref .cell = true) :
+    Py.Heap.resultUnit σ (Builder_store_ref H σ self ref) = step H σ (.storeRef self ref) ∧
+    (Builder_store_ref H σ self ref = none ↔ (σ.refBuf (σ.obj self).refsId).length ≥ 4) ∧
+    (∀ σ' r, Builder_store_ref H σ self ref = some (σ', r) →
+      r = self ∧ σ' = σ.setR (σ.obj self).refsId (σ.refBuf (σ.obj self).refsId ++ [ref])) := by
+  refine ⟨Builder_store_ref_eq H σ wf self ref hb hc, ?_, ?_⟩
+  · by_cases hl : (σ.refBuf (σ.obj self).refsId).length ≥ 4 <;> simp [Builder_store_ref, hl]
+  · intro σ' r h
+    by_cases hl : (σ.refBuf (σ.obj self).refsId).length ≥ 4
+    · simp [Builder_store_ref, hl] at h
+    · simp only [Builder_store_ref, hl, decide_false, Bool.false_eq_true, if_false, Option.some.injEq, Prod.mk.injEq] at h
+      exact ⟨h.2.symm, h.1.symm⟩
+
+open TonVerif.Generated.HeapSrc TonVerif.Proofs.SrcHeap in
+/-- REGENERATED `Slice.load_ref()` = MODEL `loadRef`, on every heap, for every live slice: IndexError exactly when no reference
+remains; otherwise the result is the object stored at `refs[ref_offset]` ITSELF (the caller receives the cell, not a copy), no
+container changes and the only record that changes is the slice's own (`ref_offset + 1`). -/
+theorem c08_src_load_step (H : Bytes → Bytes) (σ : State) (self : Nat) (hs : σ.has self .slice = true) :
+    Py.Heap.result σ (Slice_load_ref H σ self) = step H σ (.loadRef self) ∧
+    (∀ σ' c, Slice_load_ref H σ self = some (σ', c) →
+      (σ.refBuf (σ.obj self).refsId)[(σ.obj self).off]? = some c ∧ σ'.bitBuf = σ.bitBuf ∧ σ'.refBuf = σ.refBuf ∧
+      (∀ j, j ≠ self → σ'.obj j = σ.obj j) ∧ (σ'.obj self).off = (σ.obj self).off + 1 ∧
+      (σ'.obj self).bitsId = (σ.obj self).bitsId ∧ (σ'.obj self).refsId = (σ.obj self).refsId) := by
+  refine ⟨Slice_load_ref_eq H σ self hs, ?_⟩
+  intro σ' c h
+  simp only [Slice_load_ref, Py.Heap.refAt?, Py.Heap.setOff] at h
+  cases hg : (σ.refBuf (σ.obj self).refsId)[(σ.obj self).off]? with
+  | none => simp [hg] at h
+  | some c0 =>
+    simp only [hg, Option.bind_some, Option.some.injEq, Prod.mk.injEq] at h
+    obtain ⟨rfl, rfl⟩ := h
+    refine ⟨rfl, rfl, rfl, fun j hj => by simp [State.setObj, hj], by simp [State.setObj], by simp [State.setObj], by simp [State.setObj]⟩
+
+/-- SEPARATION and IMMUTABILITY hold of the regenerated loads / stores: from any heap satisfying the invariant, a regenerated
+`store_ref` / `load_ref` again yields `Sep ∧ WF ∧ Coh` and leaves every existing Cell exactly as it was — in particular the cell whose
+object was appended to a builder or handed out by a slice. -/
+theorem c08_src_separation_mut (H : Bytes → Bytes) (σ : State) (h : Inv H σ) (self arg : Nat) :
+    ∀ r ∈ srcMut H σ self arg, r.2 = step H σ r.1 ∧ Inv H r.2.1 ∧
+      ∀ i, i < σ.nObj → (σ.obj i).tag = .cell → cellObs r.2.1 i = cellObs σ i := by
+  intro r hr
+  have e : r.2 = step H σ r.1 := by
+    unfold srcMut at hr
+    rcases List.mem_append.1 hr with h1 | h1
+    · by_cases hb : (σ.has self .builder && σ.has arg .cell) = true
+      · simp only [hb, if_true, List.mem_cons, List.not_mem_nil, or_false] at h1
+        subst h1
+        simp only [Bool.and_eq_true] at hb
+        exact (c08_src_store_step H σ h.wf self arg hb.1 hb.2).1
+      · simp [hb] at h1
+    · by_cases hs : σ.has self .slice = true
+      · simp only [hs, if_true, List.mem_cons, List.not_mem_nil, or_false] at h1
+        subst h1
+        exact (c08_src_load_step H σ self hs).1
+      · simp [hs] at h1
+  refine ⟨e, ?_, ?_⟩
+  · rw [e]; exact inv_step h _
+  · intro i hi ht; rw [e]; exact cell_frame h (frame_step H σ _) i hi ht
+
+/-- along histories: any history, then a regenerated `store_ref` / `load_ref`, then any further history — the invariant holds at the end
+and a cell of the first heap is unchanged (record, cached hashes, both containers). -/
+theorem c08_src_immutable_mut (H : Bytes → Bytes) (pre post : List Op) (self arg i : Nat)
+    (hi : i < (run H init pre).nObj) (ht : ((run H init pre).obj i).tag = .cell) :
+    ∀ r ∈ srcMut H (run H init pre) self arg,
+      Inv H (run H r.2.1 post) ∧ cellObs (run H r.2.1 post) i = cellObs (run H init pre) i := by
+  intro r hr
+  have h : Inv H (run H init pre) := inv_run (inv_init H) pre
+  obtain ⟨e, h1, h2⟩ := c08_src_separation_mut H _ h self arg r hr
+  have e2 := h2 i hi ht
+  have f := frame_step H (run H init pre) r.1
+  have hi' : i < r.2.1.nObj := by rw [e]; exact Nat.lt_of_lt_of_le hi f.nObj
+  have ht' : (r.2.1.obj i).tag = .cell := by
+    have := congrArg Prod.fst e2; simp only [cellObs] at this; rw [this]; exact ht
+  exact ⟨inv_run h1 post, (cell_frame_run h1 post i hi' ht').1.trans e2⟩
+
+open TonVerif.Generated.HeapSrc in
+/-- non-vacuity on the `demo` heap: builder 5 (one reference) takes cell 2: the regenerated `store_ref` returns the builder itself, its list
+container now ends with object 2 and no container was allocated; slice 7 (`load_ref` already applied once in `demo`) has one reference
+left... the regenerated `load_ref` of slice 4 (no references) raises, of slice 7 hands out an existing cell; both lists are non-empty. -/
+example :
+    (Builder_store_ref H0 (run H0 init demo) 5 2).map (fun r => (r.2, (r.1.refBuf (r.1.obj 5).refsId).getLast?, r.1.nRef == (run H0 init demo).nRef))
+      = some (5, some 2, true) ∧
+    (Slice_load_ref H0 (run H0 init demo) 4).isNone = true ∧
+    (srcMut H0 (run H0 init demo) 5 2).length = 1 ∧ (srcMut H0 (run H0 init demo) 7 0).length = 1 := by
+  decide +kernel
+
 end TonVerif.Properties.C08
